@@ -2371,6 +2371,82 @@ def utf8_probe(ctx, rng, misc, n):
         ctx.count("utf8:valid" if ok == "1" else "utf8:invalid")
 
 
+# ------------------------------------------------------------------------------------------------
+# history / object-identity probes (harness/histories.py): entry points of the TMS / ARS codecs, described once
+def ENTRY_POINTS():
+    import histories as H
+
+    mt, ma = T(), A()
+
+    def tms_parts(rng):
+        f = gen_tms(rng, in_range_bias=1.0)
+        ty = getattr(mt.TMSPDUType, TMS_TYPES[f["type"]])
+        hdr = mt.FirstHeader(has_more_headers=bool(f["more"]), is_acknowledged=bool(f["ack"]), is_reserved=bool(f["res"]), pdu_type=ty)
+        cap = None if f["cap"] is None else mt.AvailabilitySecondHeader(mt.TMSDeviceCapability(f["cap"]))
+        enc = None if f["enc"] is None else getattr(mt.TMSEncoding, TMS_ENCS[f["enc"]])
+        msg = None if f["msg"] is None else unhx(f["msg"])[:60]
+        return (hdr, unhx(f["addr"])[:12], cap, f["seq"], enc, msg)
+
+    def tms_new(hdr, addr, cap, seq, enc, msg):
+        return mt.TextMessagingService(first_header=hdr, address=addr, availability_header=cap, sequence_number=seq, encoding=enc, message=msg)
+
+    def ars_parts(rng):
+        f = gen_ars(rng, in_range_bias=1.0)
+        if rng.random() < 0.5:  # acknowledgements are the kind with a second header bound to the first: half of the draws
+            f["type"], f["more"] = ARS_RESPONSE, 1
+            f["ack"] = rng.randrange(2)
+            f["rsh"] = {"f": rng.randrange(4), "r": None, "ctx": "self"} if f["ack"] else {"f": None, "r": rng.choice([1, 2, 63, 64, 126, 127, 127, rng.randint(1, 127)]), "ctx": "self"}
+            f["rrh"] = None
+            f["dev"] = f["user"] = f["pw"] = None
+        ty = getattr(ma.ARSPDUType, ARS_TYPES[f["type"]])
+        hdr = ma.FirstHeader(has_more_headers=bool(f["more"]), is_acknowledged=bool(f["ack"]), is_priority=bool(f["prio"]), is_control_message=bool(f["ctl"]), pdu_type=ty)
+        rrh = None if f["rrh"] is None else ma.RegistrationRequestHeader(event=getattr(ma.RegistrationEvent, ARS_EVENTS[f["rrh"][0]]), encoding=ma.Encoding.UTF8)
+        rsh = None
+        if f["rsh"] is not None:
+            r = f["rsh"]
+            rsh = ma.ResponseSecondHeader(failure_reason=None if r["f"] is None else getattr(ma.FailureReason, ARS_FAILS[r["f"]]), refresh_time=r["r"])
+            rsh.context(hdr)
+        ident = lambda x: None if x is None else unhx(x)[:20].decode("utf-8", "ignore")  # noqa: E731
+        return (hdr, rrh, rsh, ident(f["dev"]), ident(f["user"]), ident(f["pw"]), bool(f["csbk"]))
+
+    def ars_new(hdr, rrh, rsh, dev, user, pw, csbk):
+        return ma.AutomaticRegistrationService(first_header=hdr, registration_request_header=rrh, response_second_header=rsh,
+                                                device_identifier=dev, user_identifier=user, password=pw, is_csbk_ars=csbk)
+
+    def wire(parts, new):
+        def make(rng):
+            b = call(lambda: new(*parts(rng)).as_bytes())
+            if is_err(b):
+                b = bytes.fromhex("0003900001")
+            if rng.random() < 0.25:
+                b = mutate(rng, b)
+            return (bytes(b),)
+        return make
+
+    def view(q):
+        # as_bytes first: it recomputes has_more_headers in the header object (reviewed normalisation, DESIGN §5 C16), so the
+        # field view is taken after it and the canonical value is the same whenever it is taken again
+        b = H.canon(call(q.as_bytes)) if hasattr(q, "as_bytes") else None
+        return {"as_bytes": b, "fields": H.canon(q)}
+
+    def octet(rng):
+        return (bytes([rng.choice([0x00, 0x7F, 0x80, 0xFF, 0xBF, 0x3F, rng.randrange(256)])]),)
+
+    ser = lambda o: o.as_bytes()  # noqa: E731
+    eps = [
+        H.EP("tms.build", tms_new, tms_parts, kind="build", serialise=ser, canon=view, group="tms"),
+        H.EP("tms.from_bytes", mt.TextMessagingService.from_bytes, wire(tms_parts, tms_new), kind="parse", serialise=ser, canon=view, group="tms", domain="wire", draws=2),
+        H.EP("ars.build", ars_new, ars_parts, kind="build", serialise=ser, canon=view, group="ars"),
+        H.EP("ars.from_bytes", ma.AutomaticRegistrationService.from_bytes, wire(ars_parts, ars_new), kind="parse", serialise=ser, canon=view, group="ars", domain="wire", draws=3),
+    ]
+    for mod, pre in ((mt, "tms"), (ma, "ars")):
+        for cn in ("FirstHeader", "AvailabilitySecondHeader", "RegistrationRequestHeader", "ResponseSecondHeader"):
+            c = getattr(mod, cn, None)
+            if c is not None and hasattr(c, "from_bytes"):
+                eps.append(H.EP(f"{pre}.{cn}.from_bytes", c.from_bytes, octet, kind="parse", canon=H.canon, group=pre, domain=f"{pre}-octet"))
+    return eps
+
+
 def run(ctx):
     ctx.rule = (
         "messages are built from fields with the library's constructors: TMS = type (3) x flags has_more/ack/reserved x "
@@ -2484,6 +2560,9 @@ def run(ctx):
                 ctx.count("ars:mutated-parse")
                 if rng.random() < 0.3:
                     td.append((f"tms.dec {hx(x)}", tms_dec(x)))
+    import histories
+
+    histories.run(ctx, ENTRY_POINTS)
     if not ctx.search_only and ctx.driver_ok:
         ctx.correspond("tms.as_bytes", te)
         ctx.correspond("tms.from_bytes", td)
@@ -2495,6 +2574,10 @@ def run(ctx):
 def replay(obj):
     f = (obj.get("failure") or {}).get("input") or {}
     print(json.dumps(obj.get("type")), (obj.get("failure") or {}).get("what"))
+    if str((obj.get("failure") or {}).get("kind", "")).startswith("history:"):
+        import histories
+
+        return histories.replay(f, ENTRY_POINTS)
     if "captured" in f:
         b = bytes.fromhex(f["captured"])
         cls = T().TextMessagingService if f["proto"] == "tms" else A().AutomaticRegistrationService
